@@ -30,6 +30,11 @@ def exec_write(scn):
            "layout": scn["layout"], "exc": "", "file": {}, "chart": {}, "on_grid": scn.get("on_grid", True)}
     try:
         m = build(scn, r)
+        if scn.get("rewrite"):
+            # history: written once, tempo values edited in place, written again; the second file is judged
+            m.write(layout_of(scn["layout"]))
+            m.bpms.bpm = m.bpms.bpm * 2
+            rec["cls"] += ".rewrite"
         rec["chart"] = proj_chart(m)
         via = scn.get("via", 0)
         if via == 1:
@@ -64,6 +69,8 @@ def random_scenarios(n, tier):
         lay = r.choice(list(LAYOUT_COLS))
         ncol = LAYOUT_COLS[lay]
         ntp = r.choice([1, 2, 3, 5, 40]) if tier == "quick" else r.choice([1, 2, 3, 5, 40, 300])
+        if i % 150 == 7:
+            ntp = 400 + i % 7            # more distinct #BPMxx ids than two base-16 digits (and than 359) can name
         bls = [r.choice([50000, 25000, 40000, 37500, 60000]) for _ in range(ntp)]
         tempo, t = [], 0
         for k, bl in enumerate(bls):
@@ -101,5 +108,5 @@ def random_scenarios(n, tier):
                 lane.setdefault(c, []).append((tt, tt))
                 hits.append({"t": tt, "c": c, "sample": r.choice(["a.wav", "b.wav", "zz.wav"])})
         out.append({"id": f"r{i}", "layout": lay, "hits": hits, "holds": holds, "tempo": tempo, "on_grid": on_grid,
-                    "kind": "random", "shuffle": i % 2 == 0, "unknown_samples": i % 5 == 0, "via": i % 4 == 1})
+                    "kind": "random", "rewrite": i % 6 == 4, "shuffle": i % 2 == 0, "unknown_samples": i % 5 == 0, "via": i % 4 == 1})
     return out
